@@ -35,6 +35,7 @@ def emit(ctx, wd, maxops):
         return None
     text = {json.dumps(j["r"], sort_keys=True): j["text"] for j in basis}
     emit.big = ([j for j in res.json if j.get("k") == "bigcfg"], [j for j in res.json if j.get("k") == "bigop"])
+    emit.plain = [j for j in res.json if j.get("k") == "optext"]
     return cfg[0], basis, [[{"r": r, "text": text[json.dumps(r, sort_keys=True)]} for r in lst] for lst in lists]
 
 
@@ -77,7 +78,10 @@ def main(ctx):
     ev.assumptions = ["'refused with a CIP status' = refused on an existing tag (range / type errors); unknown tags end the session (C13's territory)",
                       "fragment mode: writes spell their element range (precondition of parse_operations)"]
     # textual operations
-    for j, probs in zip(basis, core.pmap(clientlib.check_text, [(cfg, j) for j in basis])):
+    plain = emit.plain          # writes spelled without a cast (text check only)
+    if not plain:
+        ctx.machinery.append("no un-cast operation texts emitted")
+    for j, probs in zip(basis + plain, core.pmap(clientlib.check_text, [(cfg, j) for j in basis + plain])):
         ev.case(key=("text", j["text"]), nontrivial=True)
         for p in probs:
             ctx.violation("operation_text", {"op": j, "problem": p}, what=p)
